@@ -342,7 +342,36 @@ func c17Pipeline(t *testing.T, rec *ev.Rec) {
 		rounds := ev.Pick(40, 120)
 		var rates []uint64
 		lastZero := map[uint64]bool{}
+		// honest relayer: a result answers the request of the previous 20th block, i.e. it carries one rate per asset
+		// of the oracle set AS IT WAS THEN; intent[id] is the value meant for asset id in the latest result
+		reqList := append([]uint64(nil), oracleAssets...)
+		intent := map[uint64]uint64{}
+		var answered []uint64
+		forceFresh := 0
+		joined := false
 		for round := 0; round < rounds && !panicked; round++ {
+			// governance switches the oracle price requirement on for an existing asset whose id lies between two oracle
+			// assets (odd runs: CMDX). The relayer answers promptly in the two rounds that follow.
+			if !joined && run%2 == 1 && round > 8 && rnd.Intn(6) == 0 {
+				for _, a := range c.App.AssetKeeper.GetAssets(c.Ctx()) {
+					if a.Name == "CMDX" && !a.IsOraclePriceRequired {
+						a.IsOraclePriceRequired = true
+						must(t, c.App.AssetKeeper.UpdateAssetRecords(c.Ctx(), a))
+						oracleAssets = oracleAssets[:0]
+						for _, b := range c.App.AssetKeeper.GetAssets(c.Ctx()) {
+							if b.IsOraclePriceRequired {
+								oracleAssets = append(oracleAssets, b.Id)
+							}
+						}
+						rings[a.Id] = mon.NewRing(n)
+						checkFlag = false // the update restarts the request cycle
+						forceFresh = 3
+						joined = true
+						hist = append(hist, fmt.Sprintf("h%d:asset %d joins the oracle set", c.Header.Height, a.Id))
+						rec.Count("pipeline_assets_joining_the_oracle_set", 1)
+					}
+				}
+			}
 			// governance re-tunes the feed now and then (same oracle script and channel, another window size): from
 			// here on the statement holds for the new N, every window starts empty and the request cycle restarts
 			if round > 5 && rnd.Intn(12) == 0 {
@@ -364,10 +393,15 @@ func c17Pipeline(t *testing.T, rec *ev.Rec) {
 				c.NextBlock(6e9)
 			}
 			fresh := rnd.Intn(100) >= 25
+			if forceFresh > 0 {
+				fresh = true
+				forceFresh--
+			}
 			if fresh {
 				lastID++
 				rates = rates[:0]
-				for range oracleAssets {
+				answered = append(answered[:0], reqList...)
+				for range answered {
 					var v uint64
 					switch x := rnd.Intn(10); {
 					case x == 0:
@@ -381,8 +415,14 @@ func c17Pipeline(t *testing.T, rec *ev.Rec) {
 					}
 					rates = append(rates, v)
 				}
-				if rnd.Intn(8) == 0 && len(rates) > 1 { // short response: last asset gets no sample
+				if rnd.Intn(8) == 0 && len(rates) > 1 && forceFresh == 0 { // short response: last asset gets no sample
 					rates = rates[:len(rates)-1]
+				}
+				intent = map[uint64]uint64{}
+				for i, id := range answered {
+					if i < len(rates) {
+						intent[id] = rates[i]
+					}
 				}
 				k := c.App.BandoracleKeeper
 				k.SetFetchPriceResult(c.Ctx(), bandtypes.OracleRequestID(lastID), bandtypes.FetchPriceResult{Rates: append([]uint64(nil), rates...)})
@@ -393,6 +433,7 @@ func c17Pipeline(t *testing.T, rec *ev.Rec) {
 				break
 			}
 			h := c.Header.Height
+			reqList = append(reqList[:0], oracleAssets...) // this block's request names the current set
 			// protocol reference
 			sampled := false
 			if !checkFlag {
@@ -418,11 +459,11 @@ func c17Pipeline(t *testing.T, rec *ev.Rec) {
 			if validation {
 				sampled = true
 				desc = "rates=["
-				for i, id := range oracleAssets {
-					if i < len(rates) {
-						rings[id].Sample(rates[i], h, gap)
-						lastZero[id] = rates[i] == 0
-						desc += c17Letter(rates[i]) + " "
+				for _, id := range oracleAssets {
+					if v, ok := intent[id]; ok {
+						rings[id].Sample(v, h, gap)
+						lastZero[id] = v == 0
+						desc += c17Letter(v) + " "
 						rec.Count("pipeline_samples", 1)
 					}
 				}
